@@ -122,7 +122,7 @@ class Policy:
         return self.rng.randrange(sched.n)
 
     def _others(self, sched, k):
-        return [j for j in range(sched.n) if j != k and not sched.finished[j]]
+        return [j for j in range(sched.n) if j != k and not sched.finished[j] and j not in sched.blocked]
 
     def _explicit_next(self, sched, kind, k):
         if self.xi < len(self.explicit):
@@ -248,12 +248,17 @@ class Scheduler:
         self.nswitch = 0
         self.nswitch_inop = 0
         self.capped = False
+        self.current = None      # thread that holds the baton
+        self.unblocked = 0       # times a thread blocked on something a parked thread held (recovery, see run())
+        self.blocked = set()     # threads sitting in a real blocking call (never chosen as switch targets)
+        self.nops_done = 0
         self.trace: list = []
         self.errors: list = []
         self.observer = observer
         self.observe_at = sorted(set(observe_at))
         self._oi = 0
         self.on_quiescent = on_quiescent
+        self.unblock_after_s = 8.0
         self.observe_sites = observe_sites
         self.observe_every = max(int(observe_every), 1)
         self._site_hits = 0
@@ -292,6 +297,12 @@ class Scheduler:
 
     # ---- pre-emption ----
     def point(self, k, kind, loc):
+        if k in self.blocked:
+            self.blocked.discard(k)   # it got what it was waiting for
+        if self.current != k and self.current is not None:
+            # this thread was blocked in a real primitive, the baton went to another thread meanwhile (recovery):
+            # wait here until the scheduler hands the baton back
+            self.sems[k].acquire()
         self.npoints += 1
         if self.npoints > self.cap:
             self.capped = True
@@ -330,6 +341,7 @@ class Scheduler:
         ent = (self.npoints, k, nxt, kind, loc, self.opidx[k])
         self.trace.append(ent)
         self._hash.update(repr(ent[1:]).encode())
+        self.current = nxt
         self.sems[nxt].release()
         self.sems[k].acquire()
 
@@ -339,6 +351,7 @@ class Scheduler:
 
     def op_end(self, k, i):
         self.in_op[k] = False
+        self.nops_done += 1
         if self.on_quiescent is not None and not any(self.in_op):
             self.nquiescent += 1
             try:
@@ -351,12 +364,17 @@ class Scheduler:
         self.finished[k] = True
         self.in_op[k] = False
         nxt = self.policy.after_finish(self, k)
+        if nxt is None and self.blocked:
+            # only threads sitting in a blocking call remain: the first one to come back owns the baton
+            self.current = min(self.blocked)
+            return
         if nxt is None:
             self.done.release()
         else:
             ent = (self.npoints, k, nxt, K_FIN, "fin", self.opidx[k])
             self.trace.append(ent)
             self._hash.update(repr(ent[1:]).encode())
+            self.current = nxt
             self.sems[nxt].release()
 
     def _thread_main(self, k, body):
@@ -412,8 +430,39 @@ class Scheduler:
             first = self.policy.first(self)
             self.trace.append((0, -1, first, K_FIN, "start", -1))
             self._hash.update(repr((-1, first)).encode())
+            self.current = first
             self.sems[first].release()
-            ok = self.done.acquire(timeout=watchdog_s)
+            # Wait for completion.  If nothing at all happens for a long while although threads are parked, the
+            # baton holder is blocked in a real primitive (a lock, a queue) that a *parked* thread holds - an
+            # artefact of baton passing, not of the code under test.  Recovery: hand the baton to a parked
+            # thread; the blocked one parks itself at its next pre-emption point (see point()).
+            ok = False
+            waited = 0.0
+            last = (-1, -1)
+            idle = 0.0
+            step = 2.0
+            while waited < watchdog_s:
+                if self.done.acquire(timeout=step):
+                    ok = True
+                    break
+                waited += step
+                prog = (self.npoints, self.nops_done)
+                if prog != last:
+                    last = prog
+                    idle = 0.0
+                    continue
+                idle += step
+                if idle >= self.unblock_after_s:
+                    cand = [j for j in range(self.n) if not self.finished[j] and j != self.current and j not in self.blocked]
+                    if cand:
+                        self.blocked.add(self.current)
+                        cand.sort(key=lambda j: (not self.in_op[j], j))
+                        nxt = cand[0]
+                        self.unblocked += 1
+                        self.trace.append((self.npoints, self.current, nxt, K_FIN, "unblock", -1))
+                        self.current = nxt
+                        self.sems[nxt].release()
+                        idle = 0.0
         finally:
             if ev:
                 mon.set_events(TOOL, 0)
